@@ -318,17 +318,40 @@ def pattern_non_empty(ck, F, rule):
     tp = Tracer(F, r"std::vec::Vec::<T, A>::push|std::vec::Vec::<T>::push", mode="int")
     env = {}
     tp.bind(pb.params[0], var("s"), env)
-    tp.eval(pb.value, env)
+    tp.ret_value = tp.eval(pb.value, env)
     pushes = [e for e in tp.events if e.callee.endswith("::push")]
     okp = False
     src = None
+    SPLIT = "core::str::<impl str>::split"
+
+    def split_source(d):
+        """the str::split(s, ..) value an elems() description iterates, else None"""
+        if isinstance(d, tuple) and d and d[0] == "elems":
+            v = d[1][1] if isinstance(d[1], tuple) and len(d[1]) == 2 and d[1][0] == "P" else d[1]
+            a_ = single_atom(v) if isinstance(v, Poly) else None
+            if a_ and atom_fn(a_) == SPLIT and atom_args(a_)[0] == var("s"):
+                return atom_fn(a_)
+        return None
     if len(pushes) == 1 and len(pushes[0].loops) == 1 and not pushes[0].guards:
         lp = pushes[0].loops[0]
         d = lp[2] if lp[0] == "iter" else None
-        if d and d[0] == "elems":
-            a = single_atom(d[1]) if isinstance(d[1], Poly) else None
-            src = atom_fn(a) if a else None
-            okp = src == "core::str::<impl str>::split" and atom_args(a)[0] == var("s")
+        src = split_source(d) or (atom_fn(single_atom(d[1])) if d and d[0] == "elems" and isinstance(d[1], Poly) and single_atom(d[1]) else None)
+        okp = split_source(d) is not None
+    elif not pushes:
+        # value form: s.split(..).map(parse_one).collect::<Result<Vec<_>, _>>() - one element per item of the split, no filtering adapter
+        rv = tp.ret_value
+        tries = 0
+        ra = single_atom(rv) if isinstance(rv, Poly) else None
+        while ra is not None and atom_fn(ra) in ("try", "std::result::Result::<T, E>::map_err") and tries < 3:
+            rv = atom_args(ra)[0]
+            ra = single_atom(rv) if isinstance(rv, Poly) else None
+            tries += 1
+        if ra is not None and atom_fn(ra) == "std::iter::Iterator::collect" and isinstance(ra[2], tuple) and ra[2][0] == "iterdesc":
+            d = ra[2][1]
+            while d[0] == "map":
+                d = d[1]
+            src = split_source(d)
+            okp = src is not None
     ck.inst(rule, "pattern-non-empty", okp, pb.span,
             "parse_puncturing_pattern pushes one element for every item of s.split(..) (never empty), unconditionally, so Ok(v) has v.len() >= 1 and "
             "Puncturer::new's assert!(!pattern.is_empty()) cannot fire: iterator source %s" % src)
